@@ -11,7 +11,7 @@ cd "$wt" || exit 2
 # restore demo files held back by an earlier attempt
 if [ -d /tmp/wt/hold_$id$sfx ]; then cp -r /tmp/wt/hold_$id$sfx/. "$wt/"; rm -rf /tmp/wt/hold_$id$sfx; fi
 git apply --check -R "$out/patch.diff" 2>/dev/null || git apply "$out/patch.diff"
-demo=$(cat "$out/demo_cmd.txt" | tail -1)
+demo=$(grep -v "^#" "$out/demo_cmd.txt" | grep -v "^[[:space:]]*$" | head -1)
 log="/tmp/wt/confirm_$id$sfx.log"; : > "$log"
 echo "== demo with patch (must fail)" >> "$log"
 ( eval "$demo" ) >> "$log" 2>&1; with=$?
